@@ -34,3 +34,85 @@ REG.contract(
     ensures=[("wr.slab", "same(sigma('data'), store_data(old(sigma('data')), dataset_of(self), "
                          "ds_write(old(ddata(dataset_of(self))), slc, data)))", "prop")],
     prop_clauses=["wr.slab", "frame:dshape", "frame:attr", "frame:link"])
+
+
+# ---------------------------------------------------------------------------------------------------------
+# C01: DataSet.append - extent / hyperslab arithmetic for any rank and any valid axis
+# ---------------------------------------------------------------------------------------------------------
+import z3                                 # noqa: E402
+from pyvc import vals as V                # noqa: E402
+
+REG.contract("np.ascontiguousarray", assumed=True, params=dict(x=Dyn), result=OpaqueT,
+             ensures=["result == opq(uf('np.ascontiguousarray', x))",
+                      "all(np_shape(result)[j] >= 0 for j in range(len(np_shape(result))))"],
+             note="the same values as a C-contiguous ndarray")
+
+REG.contract(
+    "nixio.data_set.DataSet.data_extent.setter", props=["C01"],
+    params=dict(self=Obj("DataSet"), extent=SeqOf(Int)),
+    requires=[ENTITY_OK, "dataset_of(self) != 0"], modifies=["dshape", "data"],
+    ensures=[("ext.set", "same(sigma('dshape'), shape_set(old(sigma('dshape')), dataset_of(self), extent))", "prop"),
+             # resizing keeps every element that lies inside both extents at its index (assumed h5py resize semantics)
+             ("ext.keep", "same(sigma('data'), store_data(old(sigma('data')), dataset_of(self), "
+                          "uf('h5.resized', old(ddata(dataset_of(self))), boxed(extent))))", "prop")],
+    prop_clauses=["ext.set", "ext.keep", "frame:attr", "frame:link"])
+
+APP_LET = ("E = old(dshape(dataset_of(self))); A = opq(uf('np.ascontiguousarray', data)); D = np_shape(A); r = len(E)")
+NE = "dshape(dataset_of(self))"
+
+REG.contract(
+    "nixio.data_set.DataSet.append", props=["C01", "C12"],
+    params=dict(self=Obj("DataSet"), data=Dyn, axis=Int),
+    requires=[ENTITY_OK, "dataset_of(self) != 0", "0 <= axis and axis < len(dshape(dataset_of(self)))",
+              "all(dshape(dataset_of(self))[j] >= 0 for j in range(len(dshape(dataset_of(self)))))"],
+    modifies=["dshape", "data"], let=APP_LET,
+    # refused - before anything is written - unless the ranks agree and the shapes agree everywhere but on the axis
+    raises={"ValueError": ("len(E) != len(D) or any(E[j] != D[j] and j != axis for j in range(len(E)))", "prop")},
+    # a conversion failure inside h5py's write (after the resize) is outside this contract: see C12 / finding F4
+    unexpected_ok=["TypeError"],
+    ensures=[
+        # the extent grows along the axis by the extent of the appended data, and only there
+        ("app.extent", "len({0}) == r and all({0}[j] == E[j] + ite_(j == axis, D[j], 0) for j in range(r))".format(NE), "prop"),
+        # the written hyperslab: [0, D[j]) off the axis, [E[axis], E[axis] + D[axis]) on it - i.e. right behind the old data
+        ("app.slab", "len(as_sliceseq(arg_of('_write_data', 'slc'))) == r and "
+                     "all(as_sliceseq(arg_of('_write_data', 'slc'))[j] == "
+                     "mk_slice(ite_(j == axis, E[j], 0), D[j] + ite_(j == axis, E[j], 0), None) for j in range(r))", "prop"),
+        ("app.data", "arg_of('_write_data', 'data') == boxed(A)", "prop"),
+        # content: the old elements keep their indices (resize), then exactly the slab is overwritten with the new data
+        ("app.content", "ddata(dataset_of(self)) == ds_write(uf('h5.resized', old(ddata(dataset_of(self))), boxed(%s)), "
+                        "arg_of('_write_data', 'slc'), boxed(A))" % NE, "prop")],
+    prop_clauses=["app.extent", "app.slab", "app.data", "app.content", "raises-iff:ValueError", "raises-only:ValueError",
+                  "frame:attr", "frame:link"])
+
+
+# ---------------------------------------------------------------------------------------------------------
+# the wrapper H5DataSet.write_data against raw h5py item assignment (the assumed summary used everywhere else)
+# ---------------------------------------------------------------------------------------------------------
+REG.fields("H5DataSet", dataset=OpaqueOf("h5ds"))
+_H5DS_OBJ = z3.Function("h5py_dataset_object", IntS, IntS)
+
+
+@REG.specfunc()
+def h5ds_obj(ex, p, d):
+    """the HDF5 dataset object behind an h5py Dataset python object"""
+    d = ex.deref(p, d)
+    return VInt(_H5DS_OBJ(d.t if isinstance(d, VOpaque) else Val.ok(box(d))))
+
+
+REG.contract(
+    "opaque:h5ds.__setitem__", assumed=True, params=dict(self=OpaqueOf("h5ds"), idx=Dyn, value=Dyn),
+    modifies=["data"], let="o = h5ds_obj(self); sel = idx",
+    raises={"TypeError#conv": ("h5_refuses_write(o, sel, value)", "helper")},
+    ensures=["same(sigma('data'), store_data(old(sigma('data')), o, ds_write(old(ddata(o)), sel, value)))"],
+    note="h5py Dataset.__setitem__: exactly the selected elements are replaced (dataset[:] = whole dataset)")
+
+REG.contract(
+    "nixio.hdf5.h5dataset.H5DataSet.write_data#impl", props=["C01", "C06"],
+    params=dict(self=Obj("H5DataSet"), data=Dyn, slc=Dyn),
+    requires=["h5ds_obj(field(self, 'dataset')) == gid(self)", "not is_none(data)"],
+    modifies=["data"],
+    raises={"TypeError#conv": ("h5_refuses_write(gid(self), slc, data)", "helper")},
+    # exactly the addressed region is written: no index expression (0, an empty tuple, ...) silently means "everything"
+    ensures=[("wr.sel", "same(sigma('data'), store_data(old(sigma('data')), gid(self), "
+                        "ds_write(old(ddata(gid(self))), slc, data)))", "prop")],
+    prop_clauses=["wr.sel"])
